@@ -68,10 +68,10 @@ Logical2 == {"logical_and", "logical_or", "logical_xor"}
 BoolResultKinds == RelKinds \cup Logical2 \cup {"is_finite"}
 MathKinds == {"sqrt", "asin", "acos", "atan", "asinh", "acosh", "atanh", "sinh", "cosh", "tanh", "sin", "cos", "tan",
               "log", "log1p", "log2", "log10", "exp", "exp2", "expm1"}
-SameAsFirstKinds == MathKinds \cup {"positive", "negative", "square", "ceil", "floor", "logical_not", "sign", "copysign",
-                                    "conjugate"}
+\* (copysign moved to MaxOfTwoKinds by repo commit 86e5e01)
+SameAsFirstKinds == MathKinds \cup {"positive", "negative", "square", "ceil", "floor", "logical_not", "sign", "conjugate"}
 ArithKinds == {"add", "subtract", "multiply", "divide"}
-MaxOfTwoKinds == ArithKinds \cup {"pow", "maximum", "minimum", "hypot", "atan2"}
+MaxOfTwoKinds == ArithKinds \cup {"pow", "maximum", "minimum", "hypot", "atan2", "copysign"}
 PartKinds == {"absolute", "real", "imag"}
 LeafKinds == {"symbol", "constant"}
 OpKinds == BoolResultKinds \cup SameAsFirstKinds \cup MaxOfTwoKinds \cup PartKinds \cup {"select", "complex", "upcast", "downcast"}
@@ -146,6 +146,9 @@ IsInexact(d) == d[1] \in {"f", "c"}
 \* true division of two integers / bools is computed in float64
 DivLoop(d) == IF d[1] \in {"b", "i"} THEN <<"f", 64>> ELSE d
 
+\* a ufunc without an integer loop computes integers in the smallest float holding them (int64 -> float64)
+FloatLoop(d) == IF d[1] = "i" THEN <<"f", FloatForInt(d[2])>> ELSE d
+
 NpResult(k, ts, ds) ==
   CASE k \in LeafKinds -> {DtypeOf(ts[1])}                      \* `numpy.T(value)`, `x = numpy.T(x)`
     [] k \in BoolResultKinds -> {DBool}                          \* numpy.less(...), numpy.logical_and(...), numpy.isfinite
@@ -153,13 +156,14 @@ NpResult(k, ts, ds) ==
     [] k \in {"add", "subtract", "multiply", "pow"} -> {Promote(ds[1], ds[2])}
     [] k = "divide" -> {DivLoop(Promote(ds[1], ds[2]))}
     [] k \in {"maximum", "minimum"} -> {ds[1], ds[2]}            \* Python max/min returns one of its arguments
-    [] k \in {"hypot", "copysign", "atan2"} -> IF IsInexact(ds[1]) \/ IsInexact(ds[2]) THEN {Promote(ds[1], ds[2])} ELSE {}
+    [] k \in {"hypot", "copysign", "atan2"} -> IF ds[1][1] = "b" /\ ds[2][1] = "b" THEN {} ELSE {FloatLoop(Promote(ds[1], ds[2]))}
     [] k \in PartKinds -> {IF ds[1][1] = "c" THEN <<"f", ds[1][2] \div 2>> ELSE ds[1]}   \* numpy.abs, .real, .imag
-    [] k \in MathKinds \cup {"ceil", "floor"} -> IF IsInexact(ds[1]) THEN {ds[1]} ELSE {}
+    [] k \in MathKinds -> IF ds[1][1] = "b" THEN {} ELSE {FloatLoop(ds[1])}
+    [] k \in {"ceil", "floor"} -> IF ds[1][1] \in {"f", "i"} THEN {ds[1]} ELSE {}   \* integers pass through (NumPy >= 2.1)
     [] k \in {"positive", "negative", "square", "sign", "conjugate"} -> IF ds[1][1] = "b" THEN {} ELSE {ds[1]}
     [] k = "select" -> {Promote(ds[2], ds[3])}                   \* numpy.where(c, a, b)
     [] k = "complex" -> IF ds[1] = <<"f", 32>> /\ ds[2] = <<"f", 32>> THEN {<<"c", 64>>}      \* make_complex of the header
-                        ELSE IF ds[2] = <<"f", 64>> /\ ds[1][1] = "f" THEN {<<"c", 128>>} ELSE {}
+                        ELSE IF ds[2] = <<"f", 64>> /\ ds[1][1] \in {"b", "i", "f"} THEN {<<"c", 128>>} ELSE {}
     \* the cast is chosen from the STATIC type of the operand: numpy.float64(x) for a float32 x
     [] k = "upcast" -> LET d == DtypeOf(ts[1]) IN {<<d[1], 2 * d[2]>>}
     [] k = "downcast" -> LET d == DtypeOf(ts[1]) IN {<<d[1], d[2] \div 2>>}
